@@ -304,3 +304,94 @@ def released_types(ctx):
 def free_releases_match_tags(ctx):
     rt = released_types(ctx)
     return bool(rt) and all(ty != '<no tag test>' and set(v) == {ty} for ty, v in rt.items())
+
+
+IMMEDIATE = {'object::Object::as_int': 'Int', 'object::Object::as_bool': 'Bool', 'object::Object::as_function': 'Function'}
+
+
+def check_immediates(ctx, rep, rule):
+    """the decoders of immediate values (`as_int`, `as_bool`, `as_function`) only shift the tagged word: applied to a value of
+    another type they answer with that value's bits (`ja` reads as 1, null as 0, a pointer as a huge number).  Every call in
+    reachable code must therefore be preceded, on every path, by a test that the object's tag is the decoder's type - the same
+    obligation the unsafe typed accessors carry (R02.7), for the accessors the language does not mark unsafe."""
+    from rules import psc
+    F = ctx.facts()
+    reach = psc.reachable(ctx, with_bin=False)
+    n = 0
+    for key in sorted(reach):
+        fn = F.fns[key]
+        if fn.crate != 'lib':
+            continue
+        lst = [(b, t, callee_name(t)) for b, t in fn.calls() if callee_name(t) in IMMEDIATE and user_site(t['span'])]
+        if not lst:
+            continue
+        paths = None
+        ordinal = {}
+        for b, t, nme in sorted(lst, key=lambda x: x[0]):
+            n += 1
+            ordinal[nme] = ordinal.get(nme, 0) + 1
+            want = IMMEDIATE[nme]
+            construct = '%s#%d' % (nme.split('::', 1)[-1], ordinal[nme])
+            if len(fn.blocks) > 150:
+                ok = region_tag_check(F, fn, b, t, want)
+                if not ok:
+                    ok = arm_tag_check(F, fn, b, t, want)
+            else:
+                if paths is None:
+                    paths = AbsInt(F, fn, max_paths=30000).run()
+                ok = True
+                seen = False
+                for p in paths:
+                    for c in p.calls:
+                        if c[0] == b and c[4] is t:
+                            seen = True
+                            obj = canon(p.env, c[2][0])
+                            facts = tag_facts(p)
+                            if not any(same(obj, o) and ty == want for o, ty in facts):
+                                ok = False
+                ok = ok and seen
+            rep.ob(ok, rule, key, construct, 'the value decoded as %s was tested to have the tag %s on every path that reaches the decoder' % (want, want), span_loc(t['span']))
+    rep.count('immediate_decoder_sites', n)
+
+
+def arm_tag_check(F, fn, b, t, want):
+    """inside the dispatch loop: some block that dominates the call branches on `tag(obj) == want` (a comparison or a switch on
+    the discriminant) for the same object, and the call lies on the side where the tag is `want`"""
+    from rules import psc
+    obj = psc.strip(psc.unref(psc.sym(fn, t['args'][0])))
+    for f in psc.facts_at(fn, b):
+        if f[0] == 'variant' and f[2] == TYPE:
+            v = f[1]
+            # ('variant', place-sym of the discriminant read, enum, values, ...)
+            tv = v
+            if isinstance(tv, tuple) and tv and tv[0] == 'call' and tv[1] == 'object::Object::tag' and psc.strip(psc.unref(tv[2][0])) == obj:
+                names = {dd: nme for nme, dd in F.enum_variants(TYPE)}
+                if [names.get(x) for x in (f[3] or [])] == [want]:
+                    return True
+        if f[0] in ('Eq', 'Ne') or f[0] == 'callbool':
+            c = f[1] if f[0] == 'callbool' else None
+            if c is not None and c[0] == 'call' and (c[1].endswith('PartialEq>::eq') or c[1].endswith('PartialEq::eq') or c[1].endswith('PartialEq::ne') or c[1].endswith('PartialEq>::ne')):
+                is_ne = c[1].endswith('ne')
+                tvv = f[2]
+                equal = (tvv and not is_ne) or ((not tvv) and is_ne)
+                if not equal:
+                    continue
+                a, b_ = [_enum_of_promoted(fn, psc.unref(x)) for x in c[2]]
+                for x, y in ((a, b_), (b_, a)):
+                    if isinstance(x, tuple) and x and x[0] == 'call' and x[1] == 'object::Object::tag' and psc.strip(psc.unref(x[2][0])) == obj and isinstance(y, tuple) and y and y[0] == 'enum' and y[2] == want:
+                        return True
+    return False
+
+
+def _enum_of_promoted(fn, v):
+    """a promoted constant that is one variant of object::Type -> ('enum', TYPE, variant)"""
+    if isinstance(v, tuple) and v and v[0] == 'promoted':
+        for pr in fn.j.get('promoted') or []:
+            if pr['i'] == v[1]:
+                for bl in pr['blocks']:
+                    for st in bl['stmts']:
+                        if st['k'] == 'assign' and st['rv']['k'] == 'aggregate' and st['rv'].get('adt') == TYPE:
+                            return ('enum', TYPE, st['rv']['variant'])
+                        if st['k'] == 'assign' and st['rv']['k'] == 'use' and st['rv']['op'].get('variant') and st['rv']['op'].get('ty', '').endswith('Type'):
+                            return ('enum', TYPE, st['rv']['op']['variant'])
+    return v
